@@ -45,6 +45,8 @@ def close(got, want, scale=None, tol=TOL, what=""):
     if not np.all(np.isfinite(got)):
         return f"{what}: non-finite result {got.ravel()[:4]}"
     err = np.abs(got - want)
+    # absolute floor: differences in the subnormal range (XLA flushes denormals to zero) are never judged
+    scale = np.maximum(scale, 1e-280)
     bad = err > tol * np.maximum(scale, 1e-300)
     if np.any(bad):
         i = int(np.argmax(err / np.maximum(scale, 1e-300)))
